@@ -8,6 +8,20 @@ Import ListNotations.
 Require Import BV.lib.EzspTypes BV.gen.GenCmd BV.model.EzspCodec BV.model.EzspProto BV.model.EzspCases BV.proofs.EzspBytes_proofs.
 Open Scope N_scope.
 
+(* The invariant of reachable states used by c08_no_cross: a call that waits for its reply has none
+   recorded yet ([waiting_has_no_reply], defined in proofs/EzspBytes_proofs.v as
+     forall c, In c (p_calls st) -> k_stage c = PWaiting -> k_reply c = RNone).
+   It holds initially and is kept by every event of the machine, hence in every reachable state. *)
+Theorem c08_waiting_inv_init : waiting_has_no_reply p_init.
+Proof. exact waiting_inv_init. Qed.
+
+Theorem c08_waiting_inv_step : forall st e,
+  waiting_has_no_reply st -> waiting_has_no_reply (fst (proto_step st e)).
+Proof. exact waiting_inv_step. Qed.
+
+Theorem c08_waiting_inv_reachable : forall es, waiting_has_no_reply (fst (proto_run p_init es)).
+Proof. exact waiting_inv_reachable. Qed.
+
 Section AnyTable.
   (* any schema table, header layout, command table and invalidCommand id *)
   Variables (schemas : list schema) (kind : N) (cs : list command) (invalid_fid : N).
@@ -16,7 +30,20 @@ Section AnyTable.
 
   (* whatever the bytes, a pending command is completed only by a frame that reads as: its own
      sequence number, its own frame id, a payload that decodes fully under that command's schema *)
+  (* CORRECTED: as first written (for an ARBITRARY st, without the invariant) this is false.  set_reply
+     keeps the first reply, so in a state where a call is PWaiting with a reply already recorded the
+     frame's own values are ignored and the OLD reply is returned -- even by an invalidCommand frame.
+     Counterexample (checked below as c08_no_cross_needs_invariant): schemas [[IP (PU 1)]; []],
+     cs [("a",1,1,0); ("invalidCommand",0x58,1,0)], kind 4, invalid_fid 0x58,
+       st = {| p_seq := 1; p_awaiting := [(0,(1,7))]; p_holder := Some 7; p_queue := []; p_counter := 0;
+               p_calls := [{| k_id := 7; k_fid := 1; k_stage := PWaiting; k_reply := RValues [XP (VI 9)] |}] |}
+     recv st [0;0x80;1;5]    gives [OReturn 7 [XP (VI 9)]] although the payload decodes to [XP (VI 5)];
+     recv st [0;0x80;0x58;5] gives [OReturn 7 [XP (VI 9)]] although f = invalid_fid.
+     Such a state is unreachable (complete_with_reply ends a call as soon as it is both waiting and
+     answered); the minimal correction is the hypothesis [waiting_has_no_reply st], which holds in
+     every reachable state (c08_waiting_inv_reachable) and is kept by recv (c08_waiting_inv_recv). *)
   Theorem c08_no_cross : forall st data id vs,
+    waiting_has_no_reply st ->
     In (OReturn id vs) (snd (recv st data)) ->
     exists s f payload c rest,
       header_rx kind data = Some (s, f, payload) /\ find_by_id f cs = Some c /\
@@ -59,12 +86,65 @@ Section AnyTable.
     o1 = [OSend id (p_seq st0) f] /\ o2 = [] /\ o3 = [OReturn id vs] /\ p_holder st3 = None.
   Proof. exact (bytes_later_ok schemas kind cs invalid_fid). Qed.
 
-  (* received bytes never start, cancel or time out a command, and never touch the send slot's queue *)
+  (* received bytes never start, cancel or time out a command, and never touch the send slot's queue
+     except by completing a call.  Three statements:
+     - c08_receive_only_completes (as first written; true, but it only speaks of the queue): the queue
+       moves only if the frame completed a call (OReturn or ORaise KInvalidCommand);
+     - c08_receive_outputs: EVERY output of recv is an OReturn, an ORaise _ KInvalidCommand (never
+       KTimeout / KCancelled / KSendFailed), an OCallback, or an OSend -- and an OSend is only ever that
+       of the call at the head of the queue (a call already in p_calls, i.e. previously QUEUED, sent
+       under the current p_seq), which leaves the queue, and only when the same frame completed a call;
+     - c08_receive_quiet: if no OReturn/ORaise is produced, then p_queue, p_holder, p_seq and p_counter
+       are unchanged, p_awaiting loses at most the entry of the frame's sequence number, and p_calls is
+       unchanged up to the reply recorded on one call that is not yet waiting (still in send_data). *)
+  Theorem c08_receive_outputs : forall st data o,
+    In o (snd (recv st data)) ->
+    match o with
+    | OReturn _ _ | OCallback _ _ => True
+    | ORaise _ k => k = KInvalidCommand
+    | OSend id s f =>
+        s = p_seq st /\
+        (exists p n q', p_queue st = (p, n, id) :: q' /\ p_queue (fst (recv st data)) = q') /\
+        (exists c, In c (p_calls st) /\ k_id c = id /\ k_fid c = f) /\
+        (exists done, (exists vs, In (OReturn done vs) (snd (recv st data)))
+                      \/ In (ORaise done KInvalidCommand) (snd (recv st data)))
+    end.
+  Proof. exact (bytes_receive_outputs schemas kind cs invalid_fid). Qed.
+
+  Theorem c08_receive_quiet : forall st data,
+    (forall o, In o (snd (recv st data)) ->
+       match o with OReturn _ _ | ORaise _ _ => False | _ => True end) ->
+    let st' := fst (recv st data) in
+    p_queue st' = p_queue st /\ p_holder st' = p_holder st /\
+    p_seq st' = p_seq st /\ p_counter st' = p_counter st /\
+    (p_awaiting st' = p_awaiting st \/ exists s, p_awaiting st' = aw_del s (p_awaiting st)) /\
+    (p_calls st' = p_calls st
+     \/ exists c r, In c (p_calls st) /\ k_stage c <> PWaiting /\ r <> RNone /\
+                    p_calls st' = call_set (set_reply c r) (p_calls st)).
+  Proof. exact (bytes_receive_quiet schemas kind cs invalid_fid). Qed.
+
+  (* received bytes keep the invariant of c08_no_cross *)
+  Theorem c08_waiting_inv_recv : forall st data,
+    waiting_has_no_reply st -> waiting_has_no_reply (fst (recv st data)).
+  Proof. exact (bytes_waiting_inv_recv schemas kind cs invalid_fid). Qed.
+
   Theorem c08_receive_only_completes : forall st data,
     p_queue (fst (recv st data)) = p_queue st \/ exists id vs, In (OReturn id vs) (snd (recv st data))
                                               \/ In (ORaise id KInvalidCommand) (snd (recv st data)).
   Proof. exact (bytes_receive_only_completes schemas kind cs invalid_fid). Qed.
 End AnyTable.
+
+(* the counterexample to c08_no_cross without its invariant hypothesis *)
+Example c08_no_cross_needs_invariant :
+  let schemas := [[IP (PU 1)]; []] in
+  let cs : list command := [("a"%string, 1, 1%nat, 0%nat); ("invalidCommand"%string, 0x58, 1%nat, 0%nat)] in
+  let st := {| p_seq := 1; p_awaiting := [(0, (1, 7))]; p_holder := Some 7; p_queue := []; p_counter := 0;
+               p_calls := [{| k_id := 7; k_prio := 0; k_fid := 1; k_seq := 0; k_stage := PWaiting;
+                              k_reply := RValues [XP (VI 9)] |}] |} in
+  snd (frame_received schemas 4 cs 0x58 st [0; 0x80; 1; 5]) = [OReturn 7 [XP (VI 9)]]
+  /\ decode_schema (schema_at schemas 0) [5] = Some ([XP (VI 5)], [])
+  /\ snd (frame_received schemas 4 cs 0x58 st [0; 0x80; 0x58; 5]) = [OReturn 7 [XP (VI 9)]].
+Proof. vm_compute. repeat split. Qed.
 
 (* non-vacuity on the generated v8 table: a truncated version response, an unknown id, and a
    full frame under a foreign sequence number *)
